@@ -1257,6 +1257,9 @@ func (vc *VC) iterateCallback(fr *Frame, st *State, instr *ssa.Call, c *ssa.Call
 	}
 	// 4. one arbitrary execution of the body re-establishes it
 	it := st.clone()
+	// the body may not run at all (an empty collection): what is assumed of its arguments must not constrain the
+	// continuation after the call
+	it.reach = And(st.reach, vc.q.Fresh(fr.prefix+"$cbruns", SBool))
 	var cbArgs []Term
 	cbSig := cbFn.Signature
 	envY := &Env{vc: vc, fr: nil, st: it, old: it, names: map[string]Bound{}, nq: new(int), con: con}
